@@ -108,6 +108,9 @@ def check_predicate(report):
     r3.instance("module_alias")
     r3.check(find_match("self.module in self.collisions or self.module in RESERVED_NAMES", ma.node)[0] is not None, ma.module.path, ma.node.lineno,
              "Address.module_alias", "module aliases are applied for collisions and reserved module names")
+    from .common_rules import proto_names_module_collisions, camel_case_drops_trailing_separator
+    proto_names_module_collisions(r3)
+    camel_case_drops_trailing_separator(r3)
 
 
 def check_holes(report, lib: Lib):
